@@ -9,7 +9,7 @@ ROOT = os.path.dirname(os.path.dirname(os.path.abspath(__file__)))
 CHECKS = {
     "C16": ("model_checking",
             "TLA+ model of threads as interleaved single-cell accesses checked by TLC over all schedules + TLC-enumerated thread programs run on real threads + ThreadSanitizer stress runs",
-            "TLC explores every interleaving of 2 (quick) or 3 (thorough) threads, each performing lookups expanded into the single-cell reads of their footprint and writes to disjoint logical coordinates, over every storage order and interpolator, and checks RaceFree, InBounds and Deterministic; the programs are run on real threads released together and compared with the specification's sequential results, and T in {2,4,8,16} threads with shared and per-thread views run under ThreadSanitizer with per-thread digests equal to the sequential run.",
+            "TLC explores every interleaving of 2 (quick) or 3 (thorough) threads, each performing lookups expanded into the single-cell reads of their footprint and writes to disjoint logical coordinates, over every storage order and interpolator, and checks RaceFree, InBounds and Deterministic; the programs are run on real threads released together and compared with the specification's sequential results, and T in {2,4,8,16} threads with shared and per-thread views (also through the coordinate-mapping layers clamp, out-of-range default, permutation and an affine layer, above and beneath an interpolator) run under ThreadSanitizer with per-thread digests equal to the sequential run.",
             "The no-hidden-shared-state premise (no static, mutable or thread-local state behind at()) is monitored by ThreadSanitizer on the executions performed, not proved. Trusted: TLC, g++ 12, TSan runtime.",
             "DESIGN.md section 4, C16"),
     "C02": ("model_checking",
